@@ -111,6 +111,9 @@ RLClosedForm ==
         ELSE /\ \A t \in TS : RDiv(PrefixWeight(SRNAME, g, Append(ctx, t)), pw) = RLNext(SRNAME, g, X, t)
              /\ RDiv(Weight(SRNAME, g, ctx), pw) = RLNext(SRNAME, g, X, "")
 
+RLTotalOne == (DetRL(g) /\ ProperRL(SRNAME, g) /\ Acyclic(g) /\ SRNAME = "Rat") =>
+                 \A X \in NTs(g) : TreeSum(SRNAME, g)[X] = One(SRNAME)
+
 (* write the family out for the replay into the code *)
 Dump == IF "FAMILY_FILE" \in DOMAIN IOEnv
         THEN ndJsonSerialize(IOEnv.FAMILY_FILE, FamSeq) ELSE TRUE
